@@ -10,7 +10,8 @@ import pykoop.lmi_regressors as lmi
 from .. import core, lmi_common as lc
 
 THEOREMS = ['Pk.C10.C10_core', 'Pk.C10.C10_dissipation', 'Pk.C10.W_nonneg', 'Pk.C10.C10_l2_gain',
-            'Pk.C10.C10_l2_gain_lmi', 'Pk.C10.brl_spec_block', 'Pk.C10.C10_stable', 'Pk.C10.brl_P_posDef', 'Pk.C10.C10_series_post', 'Pk.C10.C10_series_pre', 'Pk.C10.C10_units']
+            'Pk.C10.C10_l2_gain_lmi', 'Pk.C10.brl_spec_block', 'Pk.C10.C10_stable', 'Pk.C10.brl_P_posDef', 'Pk.C10.C10_series_post', 'Pk.C10.C10_series_pre', 'Pk.C10.C10_units',
+            'Pk.C10.C10_dmdc_lift', 'Pk.C10.C10_dmdc_l2_gain']
 
 
 def dyadic_weight(rng, kind, order=None):
@@ -95,6 +96,69 @@ def structure_case(ctx, forced=None):
     out.append((f"brl {n} {m_in} {k_out} {lc.fr(g)} {lc.mat_tok(P)} {lc.mat_tok(A)} {lc.mat_tok(B)} {lc.mat_tok(C)} {lc.mat_tok(D)}",
                 [big], f'problem A ({wk})'))
     return out, {'nx': nx, 'nu': nu, 'weight': wk, 'gamma': str(g)}
+
+
+def dmdc_structure_case(ctx, forced=None):
+    """LmiDmdcHinfReg: the real sub-problem A on dyadic SVD factors (output matrix C = Q_hat); base block, the series
+    connection of _create_ss(Q_hat=...) and the bounded-real block"""
+    import picos
+    from types import SimpleNamespace
+    rng = ctx.rng
+    f = lc.dmdc_factors(rng, pu=rng.randint(1, 2))
+    rh, pt, pu, q = f['rh'], f['pt'], f['pu'], f['q']
+    wk = rng.choice([None, 'pre', 'post'])
+    order = None
+    if forced is not None:
+        wk, order = forced
+    weight = None if wk is None else dyadic_weight(rng, wk, order)
+    reg = lmi.LmiDmdcHinfReg(alpha=1, ratio=1, weight=weight, picos_eps=0, solver_params=dict(lc.SOLVER))
+    reg.tsvd_shifted_ = SimpleNamespace(left_singular_vectors_=f['Qh'])
+    reg.alpha_tikhonov_, reg.alpha_other_ = q * f['alpha'], 1.0
+    nw = 0 if weight is None else (pu if wk == 'pre' else pt) * weight[1].shape[0]
+    n = rh + nw
+    P = lc.dyadic(rng, (n, n)); P = (P + P.T) / 2
+    Uh = lc.dyadic(rng, (rh, rh + pu), den=2)
+    W = lc.dyadic(rng, (rh, rh), den=2); W = (W + W.T) / 2
+    g = rng.choice([Fraction(1, 2), Fraction(2), Fraction(5, 4)])
+    pa = reg._create_problem_a(*lc.dmdc_args(f), P)
+    pa.variables['U_hat'].value = Uh
+    pa.variables['W_hat'].value = W
+    pa.variables['gamma'].value = float(g)
+    blocks = lc.constraint_blocks(pa)
+    tag = dict(lc.dmdc_tag(f), weight=wk, gamma=str(g), family='dmdc')
+    if len(blocks) != 3:
+        return [('bad', [np.zeros((1, 1))], f'Dmdc problem A has {len(blocks)} constraints, expected 3')], tag
+    out = [(lc.dmdc_line(f, W, Uh), [blocks[1][0]], 'Dmdc problem A (base block)')]
+    Am, Bm = Uh[:, :rh], Uh[:, rh:]
+    Cm, Dm = f['Qh'], np.zeros((pt, pu))
+    if weight is None:
+        A, B, C, D = Am, Bm, Cm, Dm
+    else:
+        _, Aw1, Bw1, Cw1, Dw1 = weight
+        r = pu if wk == 'pre' else pt
+        Aw, Bw, Cw, Dw = blk(Aw1, r), blk(Bw1, r), blk(Cw1, r), blk(Dw1, r)
+        rs_, ro_ = Aw.shape[0], Cw.shape[0]
+        Ass, Bss, Css, Dss = lmi._create_ss(picos.Constant('U', Uh), weight, Q_hat=f['Qh'])
+        impl = [lc.to_np(M.value) if not isinstance(M, np.ndarray) else M for M in (Ass, Bss, Css, Dss)]
+        if wk == 'post':
+            line = (f"post {rh} {rs_} {pt} {pu} {ro_} {lc.mat_tok(Am)} {lc.mat_tok(Bm)} {lc.mat_tok(Cm)} {lc.mat_tok(Dm)} "
+                    f"{lc.mat_tok(Aw)} {lc.mat_tok(Bw)} {lc.mat_tok(Cw)} {lc.mat_tok(Dw)}")
+            A = np.block([[Am, np.zeros((rh, rs_))], [Bw @ Cm, Aw]])
+            B = np.vstack((Bm, Bw @ Dm))
+            C = np.hstack((Dw @ Cm, Cw))
+            D = Dw @ Dm
+        else:
+            line = (f"pre {rh} {rs_} {pu} {pu} {pt} {lc.mat_tok(Am)} {lc.mat_tok(Bm)} {lc.mat_tok(Cm)} {lc.mat_tok(Dm)} "
+                    f"{lc.mat_tok(Aw)} {lc.mat_tok(Bw)} {lc.mat_tok(Cw)} {lc.mat_tok(Dw)}")
+            A = np.block([[Aw, np.zeros((rs_, rh))], [Bm @ Cw, Am]])
+            B = np.vstack((Bw, Bm @ Dw))
+            C = np.hstack((Dm @ Cw, Cm))
+            D = Dm @ Dw
+        out.append((line, impl, f'_create_ss(Q_hat) {wk} order {Aw1.shape[0]}'))
+    k_out, m_in = C.shape[0], B.shape[1]
+    out.append((f"brl {n} {m_in} {k_out} {lc.fr(g)} {lc.mat_tok(P)} {lc.mat_tok(A)} {lc.mat_tok(B)} {lc.mat_tok(C)} {lc.mat_tok(D)}",
+                [blocks[2][0]], f'Dmdc problem A ({wk})'))
+    return out, tag
 
 
 def hinf_norm(A, B, C, D, n_grid=4000):
@@ -237,6 +301,12 @@ def run(ctx):
         + [(None, None, 2, 1)]
     for i in range(ctx.n(25, 300) + len(forced_struct)):
         items, tag = structure_case(ctx, forced_struct[i] if i < len(forced_struct) else None)
+        for line, impl, what in items:
+            la_lines.append(line)
+            la_meta.append((impl, what, tag))
+    forced_dmdc = [(wk, order) for wk in ('pre', 'post') for order in (1, 2)] + [(None, None)]
+    for i in range(ctx.n(10, 120) + len(forced_dmdc)):
+        items, tag = dmdc_structure_case(ctx, forced_dmdc[i] if i < len(forced_dmdc) else None)
         for line, impl, what in items:
             la_lines.append(line)
             la_meta.append((impl, what, tag))
